@@ -321,6 +321,33 @@ def two_d(ctx):
             if results:
                 ctx.case('%s/%s/arc' % (base, en), key=(base, en, 'arc'))
                 judge('%s/%s/arc' % (base, en), site, P, results)
+        # vector of s in 2-D (ascending, unsorted, descending), with and without an explicit start: element j is the scalar call at s[j]
+        tv0, tv1 = tp[1][1], tp[1][2]
+        for svn, sv in (('', [0.0, 1e-12, 0.3, 0.5, 1.0]), ('/unsorted', [0.3, 1.0, 0.77, 0.0, 1.0, 1e-12]), ('/descending', [1.0, 0.5, 0.0])):
+            vents = [('SO2.interp/vec', lambda: sm.SO2(R1.copy()).interp(list(sv), start=sm.SO2(R0.copy())), lambda x: sm.SO2(R1.copy()).interp(x, start=sm.SO2(R0.copy())), 'SO2.interp'),
+                     ('SE2.interp/vec', lambda: sm.SE2(ref.rt(R1, tv1)).interp(np.array(sv), start=sm.SE2(ref.rt(R0, tv0))),
+                      lambda x: sm.SE2(ref.rt(R1, tv1)).interp(x, start=sm.SE2(ref.rt(R0, tv0))), 'SE2.interp')]
+            if a0 == 0:
+                vents += [('SO2.interp/vec/nostart', lambda: sm.SO2(R1.copy()).interp(list(sv)), lambda x: sm.SO2(R1.copy()).interp(x), 'SO2.interp'),
+                          ('SE2.interp/vec/nostart', lambda: sm.SE2(ref.rt(R1, tv1)).interp(tuple(sv)), lambda x: sm.SE2(ref.rt(R1, tv1)).interp(x), 'SE2.interp')]
+            for en, fv, fs, site in vents:
+                cid = '%s/%s%s' % (base, en, svn)
+                if not ctx.want(cid):
+                    continue
+                ctx.case(cid, key=cid)
+                P = dict(P0, entry=en.split('/')[0], mode='vector-s')
+                ok, X = call(fv)
+                if not ok:
+                    ctx.fail(cid, site, 'raises:' + type(X).__name__, P, 'vector of s raised %r' % (X,))
+                    continue
+                if not hasattr(X, 'data') or len(X.data) != len(sv):
+                    ctx.fail(cid, site, 'mismatch', dict(P, what='count'), 'vector of %d s values gave %s' % (len(sv), type(X).__name__))
+                    continue
+                for j, sj in enumerate(sv):
+                    ok1, x1 = call(fs, sj)
+                    if ok1 and ref.maxdiff(np.asarray(X.data[j], dtype=float), np.asarray(x1.data[0], dtype=float)) > TOL * max(1.0, float(np.linalg.norm(tv1))):
+                        ctx.fail(cid, site, 'mismatch', dict(P, what='value', j=j), 'element %d of the sequence differs from the scalar call' % j)
+                        break
         for tn, t0, t1 in tp:
             T0, T1 = ref.rt(R0, t0), ref.rt(R1, t1)
             sc = max(1.0, float(np.linalg.norm(t0)), float(np.linalg.norm(t1)))
